@@ -52,6 +52,50 @@ class IoProgram(Program):
         self.const_resolvers.append(IoProgram._const)
         install_models(self)
 
+    # ---- pre-states: the REAL constructor runs on the MIR; a buffer position is then set through the field NAMES read from the
+    # constructor's struct aggregate (not through a hard-wired layout), so a private layout change does not break the harness
+    def _ctor_fields(self, f, tyname):
+        for b in f.blocks.values():
+            for st in b:
+                mm = re.match(r"^_0 = %s(?:::<[^{]*>)? \{ (.*) \};$" % re.escape(tyname), st)
+                if mm:
+                    return [x.split(': ', 1)[0].strip() for x in split_top(mm.group(1))]
+        return None
+
+    def fresh_reader(self, m, k=None):
+        f = self.reader_fns.get('new')
+        if f is None:
+            raise Unsupported('Reader::new not found in the MIR')
+        st = m.run(f, [Opaque('stdin')], {})
+        if k is None:
+            return st
+        names = self._ctor_fields(f, 'Reader')
+        if not names or 'begin' not in names or 'end' not in names or not isinstance(st, list) or len(st) != len(names):
+            raise Unsupported('cannot place the read position: Reader has no begin/end fields in its constructor aggregate (%s)' % names)
+        pos = self.buf_size('reader') - k
+        st[names.index('begin')] = I(pos, 'usize')
+        st[names.index('end')] = I(pos, 'usize')
+        return st
+
+    def fresh_writer(self, m, k=None, fill=46):
+        f = self.writer_fns.get('new')
+        if f is None:
+            raise Unsupported('Writer::new not found in the MIR')
+        st = m.run(f, [Opaque('stdout')], {})
+        if k is None:
+            return st, 0
+        names = self._ctor_fields(f, 'Writer')
+        if not names or 'end' not in names or 'buf' not in names or not isinstance(st, list) or len(st) != len(names):
+            raise Unsupported('cannot place the fill level: Writer has no buf/end fields in its constructor aggregate (%s)' % names)
+        buf = st[names.index('buf')]
+        end = self.buf_size('writer') - k
+        if not isinstance(buf, Arr) or buf.n < end:
+            raise Unsupported('cannot pre-fill the Writer buffer: not a fixed-size array')
+        buf.default = I(fill, 'u8')
+        buf.d = {}
+        st[names.index('end')] = I(end, 'usize')
+        return st, end
+
     # ---- type-directed dispatch
     def readable_for(self, ty):
         ty = ty.strip()
